@@ -72,6 +72,65 @@ def run_sim(ctx, mode, cases, tag):
     return [res[c["i"]] for c in cases]
 
 
+def event_spec(ctx, evcases, evouts):
+    """Event.tla: exhaustive TLC on small thread programs (design level, with the unlocked-clear switch as vacuity guard), and
+    code -> spec validation of recorded executions of the real Event methods (Trace_Event.tla)."""
+    import shutil, re
+    tlc.sany(ctx.work, "MC_Event")
+    for k in ("a", "b", "c", "d"):
+        res = tlc.check(ctx.work, "MC_Event", "MC_Event_%s.cfg" % k, workers=4, timeout=900, coverage=False)
+        ctx.add_tlc(res, "Event.tla program %s (ClearLocked=TRUE)" % k)
+        if res.violation:
+            raise runner.Machinery("Event.tla program %s: %s" % (k, res.violation))
+    res = tlc.check(ctx.work, "MC_Event", "MC_Event_d_unlocked.cfg", workers=4, timeout=900, coverage=False)
+    if not res.violation:
+        raise runner.Machinery("Event.tla with ClearLocked=FALSE should violate PeekTruth (vacuity guard)")
+    ctx.extra["event_unlocked_clear_violates"] = str(res.violation)
+    n = 96 if ctx.tier == "thorough" else 32
+    todo = [(c, o) for c, o in zip(evcases, evouts) if o.get("ops")][:n]
+    base = os.path.join(ctx.work, "trace_event")
+
+    def one(k):
+        c, o = todo[k]
+        d = os.path.join(base, "t%d" % k)
+        os.makedirs(d, exist_ok=True)
+        for f in ("Event.tla", "Trace_Event.tla"):
+            shutil.copy(os.path.join(tlc.SPECS, f), d)
+        threads = dict(c["cfg"]["threads"])
+        threads["E1"] = o["epilogue"]
+        evs = [(t, a, oc) for t, a, oc in o["ops"] if a.split(".")[0] in ("lock", "flag", "ret")]
+        recs = ",\n  ".join('[t |-> "%s", a |-> "%s", o |-> "%s"]' % e for e in evs)
+        prog = " [] ".join('t = "%s" -> <<%s>>' % (t, ", ".join('"%s"' % (("waitT" if tm is not None else "wait") if m == "wait" else m) for m, tm in calls))
+                           for t, calls in threads.items())
+        with open(os.path.join(d, "TraceEVData.tla"), "w") as fh:
+            fh.write("---- MODULE TraceEVData ----\nEXTENDS Sequences\nTrace == <<\n  %s\n>>\nTraceThreads == {%s}\nTraceProg == [t \\in TraceThreads |-> CASE %s]\n====\n"
+                     % (recs, ", ".join('"%s"' % t for t in threads), prog))
+        with open(os.path.join(d, "trace.cfg"), "w") as fh:
+            fh.write("SPECIFICATION TraceSpec\nCONSTANTS\n  Threads <- TraceThreads\n  Prog <- TraceProg\n  ClearLocked = TRUE\n"
+                     "CONSTRAINT Track\nINVARIANT NotAccepted\nINVARIANT Coherent\nINVARIANT FlagBinary\nPOSTCONDITION Report\nCHECK_DEADLOCK FALSE\n")
+        r = tlc.check(d, "Trace_Event", "trace.cfg", workers=1, timeout=600, coverage=False, heap="2g")
+        m = re.search(r'<<"MATCHED", (\d+), (\d+)>>', r.out)
+        if r.violation and r.violation[1] == "NotAccepted":
+            shutil.rmtree(d, ignore_errors=True)
+            return dict(ok=True, n=len(evs), states=r.distinct)
+        if r.violation:
+            return dict(ok=False, n=len(evs), why="the recorded execution reaches a state violating %s of Event.tla" % (r.violation[1],), matched=None)
+        k0 = int(m.group(1)) if m else 0
+        return dict(ok=False, n=len(evs), matched=k0, next=evs[k0] if k0 < len(evs) else None, before=evs[max(0, k0 - 5):k0],
+                    why="no behaviour of Event.tla matches the recorded operations beyond event %d" % k0)
+    with cf.ThreadPoolExecutor(16) as ex:
+        out = list(ex.map(one, range(len(todo))))
+    acc = [r for r in out if r["ok"]]
+    ctx.traces_validated += len(acc)
+    ctx.extra["event_conformance"] = dict(executions=len(out), accepted=len(acc), events=sum(r["n"] for r in out))
+    for (c, o), r in zip(todo, out):
+        if not r["ok"]:
+            ctx.violation("C14 Event, seeded schedule %d of the real Event code on programs %s: %s (next operation %s after %s)"
+                          % (c["seed"], json.dumps(c["cfg"]["threads"]), r["why"], r.get("next"), r.get("before")),
+                          dict(engine="E-SIM/cond", mode="event", cfg=c["cfg"], seed=c["seed"], why=r["why"], ops=o["ops"]),
+                          signature=dict(kind="event_trace"))
+
+
 def judge(ctx, items, label, monitor="Mon_C14"):
     """items: list of (descr dict, trace). Batched TLC run of the monitor; loops so that each failing trace is reported."""
     items = list(items)
@@ -241,6 +300,7 @@ def run(ctx):
         eitems.append((dict(mode="event", how="seeded schedule %d of the real Event code" % c["seed"], cfg=c["cfg"], seed=c["seed"],
                             sched=o["sched"]), o["trace"]))
     judge(ctx, eitems, "event", monitor="Mon_C14E")
+    event_spec(ctx, evcases, evouts)
     ctx.sample(dict(direction="code->monitor (Event)", cfg=evcases[1]["cfg"], observed=evouts[1]["trace"][:14]))
     from checks import c14_real
     c14_real.run(ctx)
